@@ -152,6 +152,13 @@ def observe(tier, seed, want_cli=True, want_pool=True, cli_focus="all"):
                     ["--steps", "10", "--inner-steps", "10", "--kt-start", "100", "--kt-ratio", "0", "--max-step-size", "0.1"],
                     work, "circle", 1)
             stats["cli_invocations"] += 1
+        # a convergence threshold on the command line (stage 1 ignores it, stages 2 and 3 use it)
+        cfg = rec.new_cfg()
+        for reps in (1, 2, 3):
+            run_cli(binary, rec, cfg, "p2mg", ["polygon", "--sides", "6" if th else "3"], "Hard", reps, 2,
+                    ["--steps", "400", "--inner-steps", "20", "--kt-start", "0.05", "--kt-ratio", "0.5", "--convergence", "0.0001"],
+                    work, "polygon", 6 if th else 3)
+            stats["cli_invocations"] += 1
         # kt_finish given (stages 1 and 3 start at zero temperature with a finish temperature)
         cfg = rec.new_cfg()
         for reps in (1, 2, 3):
